@@ -559,9 +559,10 @@ def SMetric.vis (m : SMetric) : Str × Str × Str × Nat × KVs × List Nat × N
 
 /-! ### STEF -> OTLP (internal/basesteftotolp.go, otlptools/convert.go) -/
 
-/-- BaseSTEFToOTLP.ConvertExemplar; `pcommon.TraceID([]byte(..))` panics unless the length is 16 -/
+/-- BaseSTEFToOTLP.ConvertExemplar; an id of a length other than 0 or 16 (8) is an error since fix
+    b8b9856 (before: `pcommon.TraceID([]byte(..))` panicked). The converters write 16 / 8 bytes. -/
 def exemplarToOtlp (e : SExemplar) : Except String Exemplar :=
-  if e.traceID.length != 16 || e.spanID.length != 8 then .error "panic:id-length" else
+  if (e.traceID.length != 16 && e.traceID.length != 0) || (e.spanID.length != 8 && e.spanID.length != 0) then .error "err:id-length" else
   let (vt, v) := match e.value with | .none => (0, 0) | .int v => (1, v) | .dbl v => (2, v)
   .ok { ts := e.ts, vt := vt, v := v, traceID := e.traceID, spanID := e.spanID, attrs := e.attrs.toOtlp }
 
@@ -574,7 +575,7 @@ def exemplarsToOtlp : List SExemplar → Except String (List Exemplar)
       | .error x => .error x
       | .ok es' => .ok (e' :: es')
 
-def aggTempToOtlp (t : Nat) : Except String Nat := if t ≤ 2 then .ok t else .error "panic:unexpected aggregation temporality"
+def aggTempToOtlp (t : Nat) : Except String Nat := if t ≤ 2 then .ok t else .error "err:unexpected aggregation temporality"
 
 /-- BaseSTEFToOTLP.AppendOTLPPoint: the data point appended to a metric of type `t`. -/
 def pointToOtlp (t : MType) (metric : SMetric) (attrs : SAttrs) (p : SPoint) : Except String Point :=
@@ -585,7 +586,7 @@ def pointToOtlp (t : MType) (metric : SMetric) (attrs : SAttrs) (p : SPoint) : E
     | .none => .ok { base with flags := 1 }
     | .int v => (exemplarsToOtlp p.exemplars).map fun ex => { base with vt := 1, v := v, exemplars := ex }
     | .dbl v => (exemplarsToOtlp p.exemplars).map fun ex => { base with vt := 2, v := v, exemplars := ex }
-    | _ => .error "panic:unexpected type"
+    | _ => .error "err:unexpected point value type"
   | .hist =>
     match p.value with
     | .none => .ok { base with flags := 1 }
@@ -614,7 +615,7 @@ def pointToOtlp (t : MType) (metric : SMetric) (attrs : SAttrs) (p : SPoint) : E
 /-- otlptools.MetricToOtlp plus the metric-level fields AppendOTLPPoint sets -/
 def metricToOtlp (m : SMetric) : Except String Metric :=
   match MType.ofNat? m.type with
-  | none => .error "panic:not implemented"
+  | none => .error "err:unknown metric type"
   | some t =>
     match aggTempToOtlp m.temp with
     | .error e => .error e
